@@ -294,6 +294,14 @@ func c14ConcOracle(c c14ConcCase) error {
 						errs[w] = fmt.Errorf("worker %d: an earlier snapshot changed after a later scan", w)
 						return
 					}
+				case op == 11:
+					// rendering into a writer that is slow to take the bytes (a network client)
+					sw := &slowWriter{}
+					_ = snap.Aggregate(stack.AnyPointer).ToHTML(sw, "")
+					if !bytes.Equal(maskHTML(sw.b.Bytes()), wantHTML[0]) {
+						errs[w] = fmt.Errorf("worker %d: the page received by a slow writer while other goroutines render differs from the sequential rendering", w)
+						return
+					}
 				case op == 10:
 					s, _, _ := stack.ScanSnapshot(bytes.NewReader(own[w]), io.Discard, &stack.Opts{NameArguments: true})
 					if s == nil || !reflect.DeepEqual(s.Goroutines, ownWant[w].Goroutines) {
@@ -328,6 +336,17 @@ func c14ConcOracle(c c14ConcCase) error {
 	return nil
 }
 
+// slowWriter takes what it is given in small pieces and yields between them.
+type slowWriter struct{ b bytes.Buffer }
+
+func (w *slowWriter) Write(p []byte) (int, error) {
+	for off := 0; off < len(p); off += 512 {
+		w.b.Write(p[off:min(len(p), off+512)])
+		runtime.Gosched()
+	}
+	return len(p), nil
+}
+
 var raceFixture = []byte("==================\nWARNING: DATA RACE\nRead at 0x00c000012340 by goroutine 7:\n  main.racer.func1()\n      /src/r.go:12 +0x3a\n\nPrevious write at 0x00c000012340 by goroutine 6:\n  main.racer.func1()\n      /src/r.go:12 +0x50\n\nGoroutine 7 (running) created at:\n  main.racer()\n      /src/r.go:20 +0x8f\n\nGoroutine 6 (finished) created at:\n  main.racer()\n      /src/r.go:20 +0x8f\n==================\n")
 
 var c14Conc = Check[c14ConcCase]{
@@ -352,7 +371,7 @@ var c14Conc = Check[c14ConcCase]{
 		nw := rapid.IntRange(2, 16).Draw(t, "workers")
 		c := c14ConcCase{D: d, Procs: rapid.SampledFrom([]int{1, 2, 16}).Draw(t, "procs")}
 		for w := 0; w < nw; w++ {
-			c.Workers = append(c.Workers, rapid.SliceOfN(rapid.IntRange(0, 10), 1, 8).Draw(t, "ops"))
+			c.Workers = append(c.Workers, rapid.SliceOfN(rapid.IntRange(0, 11), 1, 8).Draw(t, "ops"))
 		}
 		return c
 	},
